@@ -421,7 +421,7 @@ def check(prop_id, tier):
               flush=True)
     for tag, path, cnt, v in reported:
         print(f'  violation tag={tag} runs={cnt} rule={v.get("rule")} '
-              f'expected={v.get("expected")} got={v.get("got")}', flush=True)
+              f'expected={str(v.get("expected"))[:600]} got={str(v.get("got"))[:600]}', flush=True)
         print(f'VIOLATION property={prop_id} replay={path}', flush=True)
         exit_code = 1
     if mismatches:
